@@ -178,11 +178,13 @@ pub fn run(o: &Opts, rep: &mut Report) {
                         digest(&mut rep, &prop, op, &id, &spec, &r, &known, t == 0);
                         i += nthreads as u64;
                     }
-                    if thorough {
-                        // larger configurations: more members, longer scripts and schedules, deeper trees
+                    {
+                        // larger configurations: more members, longer scripts and schedules, deeper
+                        // trees (a quarter as many as normal ones in the thorough tier, a sixteenth in
+                        // the quick tier)
                         let deep_op = format!("{}+deep", op);
                         let mut i = t as u64;
-                        while i < per_op / 4 {
+                        while i < per_op / if thorough { 4 } else { 16 } {
                             let (spec, mut c) = make_case(seed, &prop, &deep_op, i);
                             let r = run_case(&spec, &mut c, &which);
                             let id = format!("E1:{}:{}:{}:{}", prop, seed, deep_op, i);
